@@ -9,6 +9,7 @@ pub assume_specification<T>[ Option::<T>::or ](a: Option<T>, b: Option<T>) -> (r
 pub assume_specification<T>[ Option::<T>::replace ](a: &mut Option<T>, v: T) -> (r: Option<T>)
     ensures r == *old(a), *final(a) == Some(v);
 
+#[verifier::allow(undeclared_external_trait)]
 pub assume_specification<T, F>[ Option::<T>::get_or_insert_with ](a: &mut Option<T>, f: F) -> (r: &mut T)
     where F: core::ops::FnOnce() -> T + core::marker::Destruct
     requires old(a).is_none() ==> f.requires(()),
